@@ -436,8 +436,14 @@ channel.send(items)
 # (b) real workers, both directions
 
 REMOTE_SINK = r"""
-import threading, hashlib
+import threading, hashlib, os
 spec = channel.receive()
+# somebody on this side reads standard input while frames keep arriving (for remote code it is the null device, not the wire)
+def stdin_reader():
+    for _ in range(20):
+        os.read(0, 65536)
+    os.system("head -c 65536 > /dev/null")
+threading.Thread(target=stdin_reader, daemon=True).start()
 T, per, sizes = spec
 # report what arrives from the initiator
 def summary(item):
